@@ -35,6 +35,8 @@ CONSTANTS K,       \* price lattice
           Gaps,    \* TRUE: any valid candle each minute; FALSE: every open equals the previous close
           PartialChunkRaises, \* FALSE = the code since f8ad570d; TRUE = the former defect: a trailing chunk shorter than Chunk
                    \*       made the fast simulator raise ValueError
+          RelExits, \* TRUE: the decision menu also contains entries whose exits are placed in on_open_position at a
+                   \*       distance from the price the strategy sees there
           Spacing  \* TRUE: the quantifier of C12 is enforced - "exits spaced wider than a trading candle can move": in no
                    \*       trading window are two different resting-order prices of the normal run inside the window's range;
                    \* FALSE: only the statement's antecedent (<= 1 resting fill per trading window) - the simulators then differ
@@ -42,8 +44,10 @@ CONSTANTS K,       \* price lattice
 
 Px == 1..K
 Candles == {c \in [o : Px, c : Px, h : Px, l : Px] : c.l <= c.o /\ c.l <= c.c /\ c.o <= c.h /\ c.c <= c.h}
-Entries == {e \in [dir : {1, -1}, p : Px, sl : Px, tp : Px] :
-              IF e.dir = 1 THEN e.sl < e.p /\ e.p < e.tp ELSE e.tp < e.p /\ e.p < e.sl}
+AbsEntries == {e \in [dir : {1, -1}, p : Px, sl : Px, tp : Px, rel : {FALSE}, d : {0}] :
+                 IF e.dir = 1 THEN e.sl < e.p /\ e.p < e.tp ELSE e.tp < e.p /\ e.p < e.sl}
+RelEntries == IF RelExits THEN [dir : {1, -1}, p : Px, sl : {0}, tp : {0}, rel : {TRUE}, d : 1..(K - 1)] ELSE {}
+Entries == AbsEntries \cup RelEntries
 Rows == [cancel : BOOLEAN, close : BOOLEAN, entry : Entries \cup {NoEntry}]
 \* ---- composition ----
 VARIABLES m, pc, prevC, sn, sf, pre, wfills, fstat, wlo, whi, wpx,
